@@ -211,6 +211,15 @@ def xml_filter_tables():
     return tested, removed, (n_wrapped, len(arms)), sorted(set(direct_recv)), ranges
 
 
+def junit_placeholders():
+    """junit.rs: the fixed texts stored in place of a stream that does not exist."""
+    src = strip_comments(read("nextest-runner/src/reporter/aggregator/junit.rs"))
+    rows = re.findall(r'static (STDOUT_STDERR_COMBINED|STDOUT_NOT_CAPTURED|STDERR_NOT_CAPTURED|PROCESS_FAILED_TO_START): &str = "([^"\\]*)";', src)
+    if sorted(k for k, _ in rows) != ["PROCESS_FAILED_TO_START", "STDERR_NOT_CAPTURED", "STDOUT_NOT_CAPTURED", "STDOUT_STDERR_COMBINED"]:
+        raise RuntimeError(f"junit.rs: placeholder texts not found as expected: {rows}")
+    return dict(rows)
+
+
 def signal_handler_table():
     """signal.rs (unix `mod imp`): which signals are registered and which event each becomes."""
     src = strip_comments(read("nextest-runner/src/signal.rs"))
@@ -253,6 +262,7 @@ def run(tables=None):
     shut, timeout_t, jc, (n_group, n_any) = signal_tables()
     xt, xr, (xw, xa), xdirect, xranges = xml_filter_tables()
     sigh = signal_handler_table()
+    ph = junit_placeholders()
     def code_of(outcome):
         return 0 if outcome == "0" else int(codes[ee[outcome]])
     lines = [
@@ -292,6 +302,12 @@ def run(tables=None):
         "",
         "/-- signal.rs (unix): every registered signal and the event `recv` turns it into (the debug-only SIGQUIT-as-info switch off) -/",
         "def signalHandlerTable : List (String × String) := [" + ", ".join(f'("{a}", "{b}")' for a, b in sigh) + "]",
+        "",
+        "/-- junit.rs: the texts stored in place of a stream that does not exist -/",
+        f'def junitStdoutStderrCombined : String := "{ph["STDOUT_STDERR_COMBINED"]}"',
+        f'def junitStdoutNotCaptured : String := "{ph["STDOUT_NOT_CAPTURED"]}"',
+        f'def junitStderrNotCaptured : String := "{ph["STDERR_NOT_CAPTURED"]}"',
+        f'def junitProcessFailedToStart : String := "{ph["PROCESS_FAILED_TO_START"]}"',
         "",
         "/-- junit.rs `xml_string`: the code points it looks for, and the ones it removes -/",
         f"def junitNoncharsTested : List Nat := [{', '.join(map(str, xt))}]",
